@@ -126,3 +126,25 @@ package bscript
 //@   fresh r0
 //@   requires (not (nil? pubKey))
 //@   ensures[C15.addr_from_key] (and (= err nil) (not (nil? r0)) (= (. r0 AddressString) (b58enc (spec.addr_payload (ite mainnet 0 111) (bhash160 (pkser pubKey))))) (= (. r0 PublicKeyHash) (bhex (bhash160 (pkser pubKey)))))
+
+// ---- ValidateAddress' own decoder (C15) ----
+//@ func bscript.(*a25).set58
+//@   opt writes a
+//@   define (=> (and (= (old (select (H "T:uint8" Int) (elem a 0))) 0) (= (old (select (H "T:uint8" Int) (elem a 1))) 0) (= (old (select (H "T:uint8" Int) (elem a 2))) 0) (= (old (select (H "T:uint8" Int) (elem a 3))) 0) (= (old (select (H "T:uint8" Int) (elem a 4))) 0) (= (old (select (H "T:uint8" Int) (elem a 5))) 0) (= (old (select (H "T:uint8" Int) (elem a 6))) 0) (= (old (select (H "T:uint8" Int) (elem a 7))) 0) (= (old (select (H "T:uint8" Int) (elem a 8))) 0) (= (old (select (H "T:uint8" Int) (elem a 9))) 0) (= (old (select (H "T:uint8" Int) (elem a 10))) 0) (= (old (select (H "T:uint8" Int) (elem a 11))) 0) (= (old (select (H "T:uint8" Int) (elem a 12))) 0) (= (old (select (H "T:uint8" Int) (elem a 13))) 0) (= (old (select (H "T:uint8" Int) (elem a 14))) 0) (= (old (select (H "T:uint8" Int) (elem a 15))) 0) (= (old (select (H "T:uint8" Int) (elem a 16))) 0) (= (old (select (H "T:uint8" Int) (elem a 17))) 0) (= (old (select (H "T:uint8" Int) (elem a 18))) 0) (= (old (select (H "T:uint8" Int) (elem a 19))) 0) (= (old (select (H "T:uint8" Int) (elem a 20))) 0) (= (old (select (H "T:uint8" Int) (elem a 21))) 0) (= (old (select (H "T:uint8" Int) (elem a 22))) 0) (= (old (select (H "T:uint8" Int) (elem a 23))) 0) (= (old (select (H "T:uint8" Int) (elem a 24))) 0)) (and (= (= err nil) (a25ok (bytes s))) (=> (= err nil) (and (= (select (H "T:uint8" Int) (elem a 0)) (bat (a25dec (bytes s)) 0)) (= (select (H "T:uint8" Int) (elem a 1)) (bat (a25dec (bytes s)) 1)) (= (select (H "T:uint8" Int) (elem a 2)) (bat (a25dec (bytes s)) 2)) (= (select (H "T:uint8" Int) (elem a 3)) (bat (a25dec (bytes s)) 3)) (= (select (H "T:uint8" Int) (elem a 4)) (bat (a25dec (bytes s)) 4)) (= (select (H "T:uint8" Int) (elem a 5)) (bat (a25dec (bytes s)) 5)) (= (select (H "T:uint8" Int) (elem a 6)) (bat (a25dec (bytes s)) 6)) (= (select (H "T:uint8" Int) (elem a 7)) (bat (a25dec (bytes s)) 7)) (= (select (H "T:uint8" Int) (elem a 8)) (bat (a25dec (bytes s)) 8)) (= (select (H "T:uint8" Int) (elem a 9)) (bat (a25dec (bytes s)) 9)) (= (select (H "T:uint8" Int) (elem a 10)) (bat (a25dec (bytes s)) 10)) (= (select (H "T:uint8" Int) (elem a 11)) (bat (a25dec (bytes s)) 11)) (= (select (H "T:uint8" Int) (elem a 12)) (bat (a25dec (bytes s)) 12)) (= (select (H "T:uint8" Int) (elem a 13)) (bat (a25dec (bytes s)) 13)) (= (select (H "T:uint8" Int) (elem a 14)) (bat (a25dec (bytes s)) 14)) (= (select (H "T:uint8" Int) (elem a 15)) (bat (a25dec (bytes s)) 15)) (= (select (H "T:uint8" Int) (elem a 16)) (bat (a25dec (bytes s)) 16)) (= (select (H "T:uint8" Int) (elem a 17)) (bat (a25dec (bytes s)) 17)) (= (select (H "T:uint8" Int) (elem a 18)) (bat (a25dec (bytes s)) 18)) (= (select (H "T:uint8" Int) (elem a 19)) (bat (a25dec (bytes s)) 19)) (= (select (H "T:uint8" Int) (elem a 20)) (bat (a25dec (bytes s)) 20)) (= (select (H "T:uint8" Int) (elem a 21)) (bat (a25dec (bytes s)) 21)) (= (select (H "T:uint8" Int) (elem a 22)) (bat (a25dec (bytes s)) 22)) (= (select (H "T:uint8" Int) (elem a 23)) (bat (a25dec (bytes s)) 23)) (= (select (H "T:uint8" Int) (elem a 24)) (bat (a25dec (bytes s)) 24))))))
+//@ func bscript.(*a25).embeddedChecksum
+//@   bytes token
+//@   opt array-expand 25
+//@   pure
+//@   requires (not (nil? a))
+//@   requires (and (<= 0 (select (H "T:uint8" Int) (elem a 21))) (<= (select (H "T:uint8" Int) (elem a 21)) 255) (<= 0 (select (H "T:uint8" Int) (elem a 22))) (<= (select (H "T:uint8" Int) (elem a 22)) 255) (<= 0 (select (H "T:uint8" Int) (elem a 23))) (<= (select (H "T:uint8" Int) (elem a 23)) 255) (<= 0 (select (H "T:uint8" Int) (elem a 24))) (<= (select (H "T:uint8" Int) (elem a 24)) 255))
+//@   ensures[C15.embedded] (and (= (select result 0) (select (H "T:uint8" Int) (elem a 21))) (= (select result 1) (select (H "T:uint8" Int) (elem a 22))) (= (select result 2) (select (H "T:uint8" Int) (elem a 23))) (= (select result 3) (select (H "T:uint8" Int) (elem a 24))))
+//@ func bscript.(*a25).computeChecksum
+//@   bytes token
+//@   opt array-expand 25
+//@   pure
+//@   requires (not (nil? a))
+//@   ensures[C15.computed] (and (= (select result 0) (bat (bsha256d (spec.a25head a)) 0)) (= (select result 1) (bat (bsha256d (spec.a25head a)) 1)) (= (select result 2) (bat (bsha256d (spec.a25head a)) 2)) (= (select result 3) (bat (bsha256d (spec.a25head a)) 3)))
+//@ func bscript.validA58
+//@   bytes token
+//@   ensures[C15.valid_only_if] (=> r0 (and (a25ok (bytes a58)) (spec.a25_valid (a25dec (bytes a58)))))
+//@   ensures[C15.valid_err] (= r0 (= r1 nil))
